@@ -270,9 +270,21 @@ def _canon_arm(db, f, stmts, label):
         return n
     e = thru(rets[0].get("e"))
     neg = False
-    while e is not None and e.get("k") == "un" and e.get("op") == "!":
-        neg = not neg
-        e = thru(e["e"])
+    while e is not None:
+        if e.get("k") == "un" and e.get("op") == "!":
+            neg = not neg
+            e = thru(e["e"])
+            continue
+        # `x == false`, `x != true`, `false == x`
+        if e.get("k") == "bin" and e.get("op") in ("==", "!="):
+            l, r = thru(e["x"]), thru(e["y"])
+            lit, other = (r, l) if (r is not None and r.get("k") == "bool") else ((l, r) if (l is not None and l.get("k") == "bool") else (None, None))
+            if lit is not None:
+                if bool(lit.get("v")) != (e["op"] == "=="):
+                    neg = not neg
+                e = other
+                continue
+        break
     if e is None or e.get("k") != "call" or len(e.get("a", [])) != 1:
         return ("other", show(rets[0])[:80])
     arg = thru(e["a"][0])
